@@ -78,7 +78,7 @@ def work(prop_id: str, seed: int, tier: str, start: int, stop: int, wall_cap: fl
         "nontrivial_keys": set(),
         "interleavings": set(),
         "samples": [],
-        "digest": hashlib.blake2b(digest_size=8),
+        "digest": [],
         "violation_count": 0,
     }
     for idx in range(start, stop):
@@ -86,7 +86,7 @@ def work(prop_id: str, seed: int, tier: str, start: int, stop: int, wall_cap: fl
         out = safe_execute(mod, case)
         agg["cases"] += 1
         st = out["status"]
-        agg["digest"].update(f"{idx}:{st}:{out.get('digest', '')}:{out.get('oracle')}|".encode())
+        agg["digest"].append(f"{idx}:{st}:{out.get('digest', '')}:{out.get('oracle')}")
         for k in ("probes", "faults"):
             for n, v in out.get(k, {}).items():
                 agg[k][n] = agg[k].get(n, 0) + v
@@ -118,7 +118,6 @@ def work(prop_id: str, seed: int, tier: str, start: int, stop: int, wall_cap: fl
                 agg["harness_errors"].append({"idx": idx, "message": out.get("message")})
             agg["harness_error_count"] = agg.get("harness_error_count", 0) + 1
     faulthandler.cancel_dump_traceback_later()
-    agg["digest"] = agg["digest"].hexdigest()
     return agg
 
 
@@ -274,7 +273,8 @@ def run_check(prop_id: str, tier: str, seed: int, workers: int, n_cases: int | N
         samples += a["samples"]
         violations += a["violations"]
         herrs += a["harness_errors"]
-        dig.update(a["digest"].encode())
+        for line in a["digest"]:  # chunks arrive in index order; the digest does not depend on the chunking
+            dig.update((line + "|").encode())
     violations.sort(key=lambda v: (v["known"] or "", v["outcome"]["oracle"], v["size"]))
     violations = _cap_per_class(violations, 1)
 
